@@ -342,7 +342,7 @@ impl SecondOrderCone<F> {
         let ghost dim = self.dim as int;
 //@before "Hsblock[0] ="
             proof { lemma_tri_mono(1, dim); assert(tri(1) == 1 && pk(0, 0) == 0) by { reveal_with_fuel(tri, 3); } }
-//@after "Hsblock.scale(self.eta * self.eta);"
+//@after "Hsblock.scale("
             proof { lemma_pk_below(dim); }
 //@loop 1
                 invariant
@@ -352,12 +352,12 @@ impl SecondOrderCone<F> {
                     invariant
                         dim == self.dim, self.w@.len() == dim, Hsblock@.len() == tri(dim), 1 <= $var1 < dim, hidx == tri($var1 as int) + $var2, two == f_lit(2.0),
                         wcol == self.w@[$var1 as int],
+                        // the packed positions of the columns before this one lie below tri(col); this column ends before tri(dim)
+                        tri($var1 as int + 1) <= tri(dim), forall|r: int, c: int| 0 <= r <= c < $var1 ==> 0 <= #[trigger] pk(r, c) < tri($var1 as int),
                         forall|r: int, c: int| 0 <= r <= c < $var1 ==> Hsblock@[#[trigger] pk(r, c)] == hs_raw(self.w@, r, c),
                         forall|r: int| 0 <= r < $var2 ==> Hsblock@[#[trigger] pk(r, $var1 as int)] == hs_offdiag(self.w@, r, $var1 as int),
-//@body_start 2
-                    proof { lemma_pk_below($var1 as int); lemma_tri_mono($var1 as int + 1, dim); assert(pk($var2 as int, $var1 as int) == hidx); }
-//@before "Hsblock[hidx - 1] += "
-                proof { lemma_pk_below($var1 as int); lemma_tri_mono($var1 as int + 1, dim); assert(pk($var1 as int, $var1 as int) == hidx - 1); }
+//@body_start 1
+                proof { lemma_pk_below($var1 as int); lemma_tri_mono($var1 as int + 1, dim); }
 //@end
 }
 
@@ -423,15 +423,15 @@ impl SecondOrderCone<F> {
                 && sd.u@ == us_u(s@, z@, old(self).sparse_data->Some_0.u@) && sd.v@ == us_v(s@, z@, old(self).sparse_data->Some_0.v@)),
 //@pre
         let ghost c0 = *self;
-//@before "let wscale = _sqrt_soc_residual(w)"
+//@before "let wscale ="
         proof { assert(w@ =~= us_wa(s@, z@)); }
 //@before "let w1sq ="
         proof { assert(w@ =~= us_wb(s@, z@)); }
-//@before "let gamma = half * wscale"
+//@before "let gamma ="
         proof { assert(w@ =~= us_w(s@, z@)); }
-//@before "if let Some(sparse_data) = &mut self.sparse_data"
+//@before "if let Some(sparse_data) ="
         proof { assert(self.lambda@ =~= us_lambda(s@, z@)); }
-//@after "sparse_data.v.as_mut_slice()[1..].axpby("
+//@after "sparse_data.v.as_mut_slice()[1..]"
             proof {
                 assert(sparse_data.u@ =~= us_u(s@, z@, c0.sparse_data->Some_0.u@));
                 assert(sparse_data.v@ =~= us_v(s@, z@, c0.sparse_data->Some_0.v@));
